@@ -112,6 +112,9 @@ def run_stream_case(arg):
                 os.unlink(p_)
             except OSError:
                 pass
+    if p.returncode in (-6, -11, -7) or (p.returncode != 0 and b"overflowed its stack" in p.stderr):
+        # the process that called into the library died from SIGABRT / SIGSEGV / SIGBUS: no result, no error - nothing was delivered
+        return case, {"died": p.returncode, "stderr": p.stderr.decode(errors="replace")[-300:]}
     if p.returncode != 0 or not p.stdout.strip():
         return case, {"harness_error": p.stderr.decode(errors="replace")[-500:]}
     return case, json.loads(p.stdout)
@@ -120,6 +123,9 @@ def run_stream_case(arg):
 def judge_stream(case, rep, res):
     res.evaluations += 1
     no, ne, code = parse_script(case["script"])
+    if "died" in rep:
+        res.violation("streams:process-died", "%s(%r) with %s writers: the calling process died (status %d) inside the call: %s" % (case["api"], case["script"], case["writer"], rep["died"], rep["stderr"]), {"kind": "stream", "case": case})
+        return
     if "harness_timeout" in rep or "harness_error" in rep:
         res.inconclusive.append("stream case %r: executor failed (%s)" % (case["script"], rep))
         return
